@@ -19,7 +19,7 @@ RULE = (
     "the same pair; 1-13 outputs per task); non-trivial = >=3 tasks and >=2 edges; distinct = digest of (shape class, #tasks, #edges, in-degree multiset, ...)"
 )
 ASSUMPTIONS = ["networkx weakly_connected_components / shortest_path_length / dag_longest_path_length are the oracle", "jobs are well formed: at most one edge per (sink task, parameter)"]
-REQUIRED_COUNTERS = ["postcondition_evaluations", "components_checked", "distance_pairs_checked", "large_partition_cases"]
+REQUIRED_COUNTERS = ["postcondition_evaluations", "components_checked", "distance_pairs_checked", "large_partition_cases", "jobs_resummarised_after_in_place_edit"]
 
 _diag: dict = {}
 
@@ -121,6 +121,33 @@ def one_case(col: Collector, rng, index: int, checked, max_tasks: int):
     col.count("postcondition_evaluations")
     col.count("components_checked", _diag.get("components", 0))
     col.count("distance_pairs_checked", _diag.get("pairs", 0))
+    # history: the same job object, its edge list edited in place (another output of the same producer, another position of the
+    # same consumer, an edge dropped), summarised again -- the preschedule must describe the edges as they are NOW
+    if job.edges and rng.random() < 0.25:
+        from cascade.low.core import DatasetId, Task2TaskEdge
+        for _ in range(rng.randint(1, 2)):
+            i = rng.randrange(len(job.edges))
+            e = job.edges[i]
+            outs = list(job.tasks[e.source.task].definition.output_schema)
+            kind = rng.choice(["other-output", "other-position", "drop"])
+            if kind == "other-output" and len(outs) > 1:
+                job.edges[i] = Task2TaskEdge(source=DatasetId(e.source.task, rng.choice([o for o in outs if o != e.source.output])), sink_task=e.sink_task,
+                                             sink_input_kw=e.sink_input_kw, sink_input_ps=e.sink_input_ps)
+            elif kind == "other-position":
+                used = {x.sink_input_ps for x in job.edges if x.sink_task == e.sink_task and x.sink_input_ps is not None}
+                job.edges[i] = Task2TaskEdge(source=e.source, sink_task=e.sink_task, sink_input_kw=None, sink_input_ps=max(used | {0}) + 1)
+            elif kind == "drop" and len(job.edges) > 1:
+                del job.edges[i]
+        col.count("jobs_resummarised_after_in_place_edit")
+        try:
+            checked(job)
+        except PostBroken:
+            col.violation(f"preschedule:{_diag.get('mech', 'unknown')}:after-in-place-edit-of-edges", _diag.get("msg", "post-condition false") + " (the job's edge list had been edited in place and summarised again)", wit, index)
+            return
+        except Exception as e2:  # noqa: BLE001
+            col.violation(f"precompute-raises:{type(e2).__name__}:after-in-place-edit-of-edges", f"{e2!r:.300}", wit, index)
+            return
+        col.count("postcondition_evaluations")
 
 
 def one_large_partition(col: Collector, rng, index: int):
